@@ -178,6 +178,8 @@ def run(R):
                 b = tb.body('tonic_build::%s::generate_%s' % (side, k))
                 R.saw(b)
                 idents = [const_val(b.origin(t['args'][1])) for bb, t in b.calls(name='push_ident') if len(t['args']) > 1]
+                # .. and identifiers made from a string and interpolated (`format_ident!("{}", name)` with the name a literal of the leaf)
+                idents += [const_val(x) for bb, t in b.calls(name='mk_ident') for x in find_terms(b.origin(t['args'][0]), lambda x: x and x[0] == 'const' and isinstance(const_val(x), str) and const_val(x) in gen.KINDS)]
                 names = [i for i in idents if i in gen.KINDS]
                 traits = [i for i in idents if isinstance(i, str) and i.endswith('Service') and i[:-7] in gen.KIND_OF_TRAIT]
                 okk = bool(names) and set(names) == {k}
